@@ -58,6 +58,53 @@ ROWS = [
   "an after-field with two or more before-fields (list form or several directives)", "C20 solution_unreachable", "missed at first: solve_order([a,b], c) and two-directive programs added"),
  ("C20-m3", "C20", "/tmp/wt_C20", 3, "only two solve phases: level 0, then everything ordered after it in one batch",
   "three ordering levels; the middle variable follows the number of values of the last", "C20 marginal_depends_on_b (chain-joint)", "missed at first: chain programs with equal (a,b) feasible sets and different c-sides; joint (a,b) marginal compared across programs"),
+ # wave 3 / 4
+ ("C04-m1", "C04", "/tmp/wt_C04", 1, "start-of-call reset of the cached list sum/product dropped (FieldArrayModel.pre_randomize)",
+  "random-size list with a sum/product constraint whose list the user pre-filled beyond the largest admitted size (or a failed element solve followed by another size)", "C04 list_constraint_violated (rszpre programs)", "missed at first: pre-filled random-size lists added"),
+ ("C04-m3", "C04", "/tmp/wt_C04", 3, "trim guard sz >= 0 became sz > 0: an empty random-size list keeps its hidden elements",
+  "size constraints admitting 0 and a larger size, an outcome of exactly 0, then append / sum", "C04 edit_not_on_exposed_list", "caught as built"),
+ ("C08-m1", "C08", "/tmp/wt_C08", 1, "moved parenthesis in FieldCompositeModel.set_used_rand: a non-random sub-object no longer protects what is below it",
+  "depth >= 2: non-random object in the middle with a rand-declared object or list under it", "C08 nonrandom_subobject_changed", "caught as built"),
+ ("C08-m2", "C08", "/tmp/wt_C08", 2, "ExprIndexedFieldRefModel.get_target caches the resolved target",
+  "subscript indexed by a non-random field that changes between calls; nested foreach over inner lists of different lengths", "C08 indexed_call_failed / index_denotes_wrong_element", "missed at first: index-selected and nested-list programs added"),
+ ("C08-m3", "C08", "/tmp/wt_C08", 3, "dynamic-constraint reference in expression mode expands the last-constructed instance's block",
+  "two instances of a class with a dynamic constraint, reference through the one not built last (also through a sub-object)", "C06 inline_or_class_constraint_violated", "caught by C06 as built; C06 also gained a holder with two sub-objects"),
+ ("C10-m1", "C10", "/tmp/wt_C10", 1, "RangelistModel.intersect: left remainder after a removed range starts at the wrong place",
+  "two separate non-adjacent ignore/illegal values inside one bin range", "C10 single_sample", "caught as built"),
+ ("C10-m2", "C10", "/tmp/wt_C10", 2, "bin collection finalize indexes child bins by child position instead of bins so far",
+  "a one-bin-per-value collection where a multi-value range is followed by another child", "C10 single_sample", "caught as built"),
+ ("C10-m3", "C10", "/tmp/wt_C10", 3, "mk_collection partitions the caller's range list in place",
+  "a counted bin_array specification object reused by a second coverpoint / second instance", "C10 shared_spec", "missed at first: shared-specification sub-check added"),
+ ("C15-m1", "C15", "/tmp/wt_C15", 1, "upper end of a zero-weight range no longer excluded (Le -> Lt)",
+  "zero-weight range entry and constraints pushing the field onto its upper end", "C15 zero_or_unlisted_value", "caught as built"),
+ ("C15-m2", "C15", "/tmp/wt_C15", 2, "copied dist weight builds its upper bound from the lower bound (constraint_copy_builder)",
+  "dist inside a foreach with a range entry lo != hi", "C15 wrong_probability (foreach programs)", "missed at first: dist on list elements inside foreach added (exact marginals)"),
+ ("C15-m3", "C15", "/tmp/wt_C15", 3, "randselect skips zero-weight entries but indexes the full list",
+  "randselect with a zero weight that is not at the end", "C15 select_probability", "caught as built"),
+ ("C17-m1", "C17", "/tmp/wt_C17", 1, "pre_randomize runs after the constraint model was expanded",
+  "pre_randomize changing what a foreach ranges over / a non-random field used in an if inside a foreach", "C17 constraints (K7 trees)", "missed at first: K7 (non-random field deciding a branch inside a foreach) added"),
+ ("C17-m2", "C17", "/tmp/wt_C17", 2, "elements of random-size object lists never get pre_randomize",
+  "randsz_list_t of randobj elements defining pre_randomize", "C17 callback_count", "missed at first: random-size object lists added to the tree generator"),
+ ("C17-m3", "C17", "/tmp/wt_C17", 3, "pre_randomize looked up on the decorated root class instead of the instance",
+  "a randobj class derived from another randobj class where only the derived class defines the callback", "C17 callback_count", "missed at first: the leaf class now inherits its fields and defines the callbacks in the derived class only"),
+ ("C11-m1", "C11", "/tmp/wt_C11", 1, "cross bin index assumes one bin per bin specification",
+  "crossed coverpoint with >= 2 bins entries, a multi-bin entry that is not the last, a hit in a later entry", "C11 single_sample", "caught as built"),
+ ("C11-m2", "C11", "/tmp/wt_C11", 2, "bin collection keeps a stale hit index on a miss",
+  "crossed coverpoint whose bins form a collection, a hit followed by a sample that misses every bin", "C11 sequence", "missed at first: partial collections (values outside every bin) added to the layouts"),
+ ("C11-m3", "C11", "/tmp/wt_C11", 3, "cross checks 'iff was evaluated' instead of 'iff is true'",
+  "coverpoint with its own iff that hit earlier and is gated off on a later sample", "C11 sequence", "caught as built"),
+ ("C18-m1", "C18", "/tmp/wt_C18", 1, "part-select write does not mask the inserted value",
+  "slice write with a value wider than the slice (or negative)", "C18 psel_write", "missed at first: wide and negative slice values added"),
+ ("C18-m2", "C18", "/tmp/wt_C18", 2, "signed list element read 'simplifies' the two's-complement conversion",
+  "signed list element that is negative after a randomize(), read by indexing", "C18 randlist_read", "missed at first: lists read after a solving call added"),
+ ("C18-m3", "C18", "/tmp/wt_C18", 3, "enum list index assignment stores the masked bit pattern",
+  "IntEnum with a negative enumerator written through l[i] = E.NEG", "C18 interpreter_crash (KeyError while reading)", "caught as built (reported as the exception the read raises)"),
+ ("C19-m1", "C19", "/tmp/wt_C19", 1, "single wildcard bin compares against the unmasked value (re-introduces the repaired defect)",
+  "(value, mask) tuple whose value has bits outside the mask", "C19 single_bin", "caught as built"),
+ ("C19-m2", "C19", "/tmp/wt_C19", 2, "stale loop variable in valmask2binlist",
+  "array pattern with two or more wildcard runs of different lengths", "C19 array_bin_count", "missed at first because attributed cases of the open finding filled the per-case report cap: caps are now per kind"),
+ ("C19-m3", "C19", "/tmp/wt_C19", 3, "overlap collapse advances its index after a merge",
+  "three patterns in one array whose ranges chain-overlap", "C19 array_bin_count", "missed at first: three-pattern arrays added"),
 ]
 
 def main():
